@@ -60,8 +60,11 @@ def _ref_preemph(x, c):
 
 class Mon:
     def __init__(self, rec):
+        from ..history import ResultHistory
+
         self.rec = rec
         self.case = None
+        self.hist = ResultHistory(rec, self.v)
 
     def attach(self):
         from pydrobert.speech import pre as P
@@ -123,6 +126,7 @@ class Mon:
                 coeff, before.dtype, before.shape, i, out.ravel()[i].item(), ref.ravel()[i].item()), check="recurrence", **info)
         if not kw["in_place"] and not np.array_equal(np.asarray(kw["signal"]), before):
             self.v("Preemphasize.apply(in_place=False) modified its input", check="input_modified", **info)
+        self.hist.observe(c.self, c.result, "Preemphasize.apply", overwritten=[kw["signal"]] if kw["in_place"] else [], **info)
         if before.shape[-1] >= 2:
             self.rec.nt(("preemph", str(before.dtype), before.shape, coeff, bool(kw["in_place"]), float(np.sum(before.astype(np.float64)))))
 
@@ -146,6 +150,7 @@ class Mon:
             self.v("Dither(0) is not the identity", check="dither_identity", **info)
         if not kw["in_place"] and not np.array_equal(np.asarray(kw["signal"]), before):
             self.v("Dither.apply(in_place=False) modified its input", check="input_modified", **info)
+        self.hist.observe(c.self, c.result, "Dither.apply", overwritten=[kw["signal"]] if kw["in_place"] else [], **info)
         if coeff > 0:
             self.rec.nt(("dither", str(before.dtype), before.shape, coeff, bool(kw["in_place"]), float(np.sum(before.astype(np.float64)))))
 
@@ -206,6 +211,15 @@ def run_case(case, rec, mon=None):
                 y = p.apply(x, in_place=False)
                 if n and np.shares_memory(y, x):
                     mon.v("Preemphasize(in_place=False) result shares memory with its input", check="aliasing", op="preemph", dtype=dtype, shape=list(x.shape), coeff=coeff)
+            if rng.random() < 0.35 and n:
+                # the same object again on signals of the same shape: earlier results stay what they were
+                rec.count("preemph_objects_called_repeatedly")
+                for dt2 in [str(t) for t in rng.permutation([dtype, dtype, "float64", "float32", "int16"])][:3]:
+                    x4 = _signal(rng, n, dt2, two_d)
+                    x4.setflags(write=False)
+                    y4 = p.apply(x4)
+                    if rng.random() < 0.3:
+                        p.apply(y4)  # chained on its own output
         rec.sample({"kind": kind, "last": {"n": n, "dtype": dtype, "coeff": coeff, "mode": mode}})
     elif kind == "dither":
         for j in range(case["n"]):
@@ -258,6 +272,24 @@ def run_case(case, rec, mon=None):
                 y3 = d.apply(x3, in_place=True)
                 if not np.array_equal(y3, y1):
                     mon.v("Dither in_place=True differs from in_place=False", check="in_place_values", op="dither", dtype=dtype, shape=[n], coeff=coeff)
+                # ... also when the signal is a strided view (one channel of an interleaved recording, a reversed signal)
+                lay = int(rng.integers(3))
+                if lay == 0:
+                    big = np.zeros((n, 2))
+                    view = big[:, 0]
+                elif lay == 1:
+                    big = np.zeros(2 * n)
+                    view = big[::2]
+                else:
+                    big = np.zeros(n)
+                    view = big[::-1]
+                view[:] = x
+                np.random.seed(s)
+                y5 = d.apply(view, in_place=True)
+                rec.count("dither_in_place_on_strided_views")
+                if not np.array_equal(y5, y1) or not np.array_equal(view, y1):
+                    mon.v("Dither in_place=True on a strided view differs from in_place=False under the same seed (layout %d)" % lay, check="in_place_values", op="dither",
+                          dtype=dtype, shape=[n], coeff=coeff)
         rec.sample({"kind": kind, "last": {"n": n, "dtype": dtype, "coeff": coeff, "np_seed": s}})
     elif kind == "dither_moments":
         N = case["N"]
